@@ -102,3 +102,31 @@ fn c03_lazy_slots_history() {
     std::mem::forget(used);
     std::mem::forget(fresh);
 }
+
+/// A lazily loaded table that fails to parse fails on every query, not only on the first
+/// (an error must not be cached as "table absent").
+// @bound font whose vhea table is 4 bytes long (unparsable); vhea_table() / vertical_advance(g) after one earlier vhea_table() or vertical_advance() call, against a fresh font; glyph id any u16
+#[kani::proof]
+#[kani::unwind(8)]
+fn c03_failed_load_is_not_cached() {
+    let mut p1 = provider(true, 5);
+    p1.corrupt_vhea = true;
+    let mut p2 = provider(true, 5);
+    p2.corrupt_vhea = true;
+    let mut used = Font::new(p1).unwrap();
+    let mut fresh = Font::new(p2).unwrap();
+    if kani::any() {
+        let _ = used.vhea_table();
+    } else {
+        let _ = used.vertical_advance(kani::any());
+    }
+    let a = used.vhea_table();
+    let b = fresh.vhea_table();
+    assert!(a.is_err() == b.is_err(), "a failed table load is reported differently on a later query");
+    assert!(b.is_err());
+    let g: u16 = kani::any();
+    assert!(used.vertical_advance(g) == fresh.vertical_advance(g));
+    kani::cover!(true, "probed");
+    std::mem::forget(used);
+    std::mem::forget(fresh);
+}
